@@ -43,12 +43,12 @@ def obligations(tier: str):
     for i, (pre, suf) in enumerate(HOT):
         obls.append(holes.obligation("hot%02d.k1" % i, pre, suf, 1, "reject", 120))
         obls.append(holes.obligation("hot%02d.k2" % i, pre, suf, 2, "reject", 300))
-        if tier == "thorough":
-            obls.append(holes.obligation("hot%02d.k3" % i, pre, suf, 3, "reject", 2400))
+        if tier == "thorough" and i % 3 == 0:
+            obls.append(holes.obligation("hot%02d.k3" % i, pre, suf, 3, "reject", 1200))
     for j, (pre, suf) in enumerate(holes.hole_instances(SEEDS)):
         obls.append(holes.obligation("seed%04d.k1" % j, pre, suf, 1, "reject", 120))
-        if tier == "thorough":
-            obls.append(holes.obligation("seed%04d.k2" % j, pre, suf, 2, "reject", 900))
+        if tier == "thorough" and j % 2 == 0:
+            obls.append(holes.obligation("seed%04d.k2" % j, pre, suf, 2, "reject", 600))
     for j, (pre, suf) in enumerate(ESCAPE_EDGE):
         obls.append(holes.obligation("esc%02d.k0" % j, pre, suf, 0, "both", 60))
         obls.append(holes.obligation("esc%02d.k1" % j, pre, suf, 1, "reject", 120))
